@@ -10,7 +10,7 @@ import sympy as sp
 from ..cfg import cfg_of
 from ..core import named_args, AnalysisError, call_name, const_value, dotted, unparse, walk_no_nested
 from ..report import Ctx
-from ..sym import ToSympy, equal
+from ..sym import ToSympy, equal, inline_defs, inline_returns, matrix_index, unknowns
 from ..pattern import body_is, find, find_expr, has, has_expr
 
 L, L0, Li, K, N = sp.symbols('L L0 Li K N')
@@ -92,19 +92,35 @@ def run(ctx: Ctx) -> None:
             return SYMS[t]
         return None
 
+    #: the quantities a summary statistic may be a formula of: the five of the defining formulas and the other named fields of
+    #: the results record (the general statistics).  Any other symbol left in a translated right-hand side is a name the rule
+    #: cannot interpret: the formula is then not comparable with its definition (open verdict, never a violation)
+    known = set(SYMS.values()) | {sp.Symbol(v) for v in GENERAL.values() if v.startswith('self.data.')}
+
+    def formula(func, e: ast.expr) -> ast.expr:
+        """the right-hand side with single-definition locals and single-return helpers of the package replaced by what they stand for"""
+        e = _strip(e)
+        for _ in range(2):
+            e = _strip(inline_returns(prog, func, inline_defs(func.node, e)))
+        return matrix_index(e)
+
     for target, want in FORMULAS.items():
         ss = [s for s in assigns.get(target, []) if unparse(s.value) != 'None']
         if len(ss) != 1:
             raise AnalysisError(f'C08.R1: {target} is assigned {len(ss)} times in _calculate_stats')
         s = ss[0]
-        e = _strip(s.value)
+        short = target.split('.')[-1]
         try:
-            got = ToSympy(hook=hook)(e)
-            ok = equal(got, want)
+            got = ToSympy(hook=hook)(formula(cs, s.value))
+            unk = unknowns(got, known)
+            ok = None if unk else equal(got, want)
+            msg = (f'the right-hand side of {short} = {got} contains {", ".join(unk)}, which the rule cannot relate to the quantities of the defining formula {want}: not comparable' if unk
+                   else f'{short} = {got}' + ('' if ok else f'; the defining formula is {want}'))
         except AnalysisError as ex:
             got, ok = str(ex), None  # the right-hand side is not arithmetic the translation understands
-        ctx.add('C08.R1', target.replace('self.data.', 'stat:'), ok, (cs.file, s.lineno), (f'{target.split(".")[-1]} = {got}' + ('' if ok else f'; the defining formula is {want}')) if ok is not None else
-                f'the right-hand side of {target.split(".")[-1]} is not in a form the formula translation understands: {got}', detail=str(got), positive=ok is False)
+            msg = f'the right-hand side of {short} is not in a form the formula translation understands: {got}'
+        # positive: every symbol is a named quantity of the results record and the normal forms differ
+        ctx.add('C08.R1', target.replace('self.data.', 'stat:'), ok, (cs.file, s.lineno), msg, detail=str(got), positive=ok is False)
         if target in GUARD:
             # normal form of `x = f if g is not None else None`: if g is None: x = None / else: x = f
             encl = [n for n in walk_no_nested(cs.node) if isinstance(n, ast.If) and (s in n.body or s in n.orelse)]
@@ -113,7 +129,6 @@ def run(ctx: Ctx) -> None:
     # pairwise test
     ct = BR.methods['_calculate_test']
     i, j, mat = ct.positional_params()[1:4]
-    from ..core import inline_locals
     from ..pattern import find as _find
 
     bt = _find(ct.node, """
@@ -132,16 +147,19 @@ return __MAX
     ok = None
     got = 'shape not recognised - expected: a guard on the variance of the difference, then the ratio'
     if bt is not None:
-        e = inline_locals(ct.node, bt['__T'][1])
-        sym = {f'{mat}[{i}, {i}]': sp.Symbol('vii'), f'{mat}[{j}, {j}]': sp.Symbol('vjj'), f'{mat}[{i}, {j}]': sp.Symbol('vij'), f'{mat}[{j}, {i}]': sp.Symbol('vij'),
-               f'self.data.betaValues[{i}]': sp.Symbol('bi'), f'self.data.betaValues[{j}]': sp.Symbol('bj')}
+        vii, vjj, vij, bi, bj = sp.symbols('vii vjj vij bi bj')
+        sym = {f'{mat}[{i}, {i}]': vii, f'{mat}[{j}, {j}]': vjj, f'{mat}[{i}, {j}]': vij, f'{mat}[{j}, {i}]': vij,
+               f'self.data.betaValues[{i}]': bi, f'self.data.betaValues[{j}]': bj}
         try:
-            g = ToSympy(hook=lambda n, ts: sym.get(unparse(n)))(e)
+            g = ToSympy(hook=lambda n, ts: sym.get(unparse(n)))(formula(ct, bt['__T'][1]))
+            r = ToSympy(hook=lambda n, ts: sym.get(unparse(n)))(formula(ct, bt['__R'][1]))
             got = str(g)
-            want = (sp.Symbol('bi') - sp.Symbol('bj')) / sp.sqrt(sp.Symbol('vii') + sp.Symbol('vjj') - 2 * sp.Symbol('vij'))
-            ok = equal(g, want)
-            r = ToSympy(hook=lambda n, ts: sym.get(unparse(n)))(inline_locals(ct.node, bt['__R'][1]))
-            ok = ok and equal(r, sp.Symbol('vii') + sp.Symbol('vjj') - 2 * sp.Symbol('vij'))
+            unk = sorted(set(unknowns(g, sym.values()) + unknowns(r, sym.values())))
+            if unk:
+                # an element read the rule cannot place in the matrix (or any other name): not comparable
+                got, ok = f'shape not recognised - the pairwise test {g} (guard on {r}) contains {", ".join(unk)}, which the rule cannot relate to b_i, b_j, v_ii, v_jj, v_ij', None
+            else:
+                ok = equal(g, (bi - bj) / sp.sqrt(vii + vjj - 2 * vij)) and equal(r, vii + vjj - 2 * vij)
         except AnalysisError as ex:
             got, ok = f'shape not recognised - {ex}', None
     ctx.add('C08.R1', 'bioResults._calculate_test', ok, ct, (f'pairwise test = {got}' + ('' if ok else '; expected (b_i - b_j)/sqrt(v_ii + v_jj - 2 v_ij)')) if ok is not None else got, got, positive=ok is False)
@@ -175,15 +193,24 @@ return __MAX
             return [unparse(e)]
         return None
 
-    fac = chain(s.value)
+    fac = chain(inline_defs(cs.node, s.value))
     sandwich = ['self.data.varCovar', 'self.data.bhhh', 'self.data.varCovar']
+    ok = ok or fac == sandwich  # the product V.B.V, however it is bracketed and whatever its factors are called
     other = fac is not None and fac != sandwich and set(fac) <= {'self.data.varCovar', 'self.data.bhhh', 'self.data.H'}
-    ctx.add('C08.R1', 'matrix:robust_varCovar', ok if (ok or other or fac == sandwich) else None, (cs.file, s.lineno), f'robust_varCovar = {unparse(s.value)}' + ('' if ok or fac == sandwich else ('; expected V.B.V' if other else ': not in the expected form (a product of three matrices)')),
+    ctx.add('C08.R1', 'matrix:robust_varCovar', ok if (ok or other) else None, (cs.file, s.lineno), f'robust_varCovar = {unparse(s.value)}' + ('' if ok or fac == sandwich else ('; expected V.B.V' if other else ': not in the expected form (a product of three matrices)')),
             unparse(s.value), positive=other)
     s = single('self.data.bootstrap_varCovar')
-    ok = unparse(s.value).replace(' ', '') == 'np.cov(self.data.bootstrap,rowvar=False)'
-    v_ = s.value
-    rows_as_vars = isinstance(v_, ast.Call) and dotted(v_.func) in ('np.cov', 'numpy.cov') and v_.args and unparse(v_.args[0]) == 'self.data.bootstrap' and named_args(v_).get('rowvar', 'True') != 'False'
+    v_ = inline_defs(cs.node, s.value)
+    rowvar = None  # True / False: the constant the call passes (or numpy's default); None: cannot tell
+    if isinstance(v_, ast.Call) and dotted(v_.func) in ('np.cov', 'numpy.cov') and len(v_.args) == 1 and unparse(v_.args[0]) == 'self.data.bootstrap' \
+            and all(k.arg == 'rowvar' for k in v_.keywords):
+        kw = [k.value for k in v_.keywords]
+        if not kw:
+            rowvar = True  # numpy's default
+        elif isinstance(kw[0], ast.Constant) and isinstance(kw[0].value, (bool, int)):
+            rowvar = bool(kw[0].value)  # rowvar=0 and rowvar=False are the same request
+    ok = rowvar is False
+    rows_as_vars = rowvar is True
     ctx.add('C08.R1', 'matrix:bootstrap_varCovar', ok if (ok or rows_as_vars) else None, (cs.file, s.lineno), f'bootstrap_varCovar = {unparse(s.value)}' + ('' if ok else ('; the replications are the rows: expected cov(replications, rowvar=False)' if rows_as_vars else ': not in the expected form')),
             unparse(s.value), positive=bool(rows_as_vars))
 
@@ -202,45 +229,98 @@ if (_D > 0).all():
 else:
     self.data.FAMcorrelation = np.full_like(self.data.FAMvarCovar, np.finfo(float).max)
 """
-    for fam in FAMILIES:
-        ok = has(cs.node, BLOCK.replace('FAM', fam))
-        setters = [n for n in walk_no_nested(cs.node) if isinstance(n, ast.Call) and isinstance(n.func, ast.Attribute) and n.func.attr == f'set_{fam}std_err']
-        line = setters[0].lineno if setters else cs.line
-        # which matrices does the block of this family read?
-        reads = set()
-        for n in walk_no_nested(cs.node):
-            if isinstance(n, ast.For) and any(x in setters for x in ast.walk(n)):
-                reads |= set(re.findall(r'self\.data\.(\w*varCovar)', unparse(n)))
-        own = {f'{fam}varCovar'}
-        # reaching definitions: every local that enters the correlation of this family is computed from the matrix of this family
-        stale = None
-        cors = [a for a in walk_no_nested(cs.node) if isinstance(a, ast.Assign) and unparse(a.targets[0]) == f'self.data.{fam}correlation' and 'full_like' not in unparse(a.value)]
-        ccfg = cfg_of(cs.node)
-        for a in cors:
-            todo = [x for x in ast.walk(a.value) if isinstance(x, ast.Name)]
-            seen = set()
-            while todo and stale is None:
-                nm = todo.pop()
-                if (nm.id, id(nm)) in seen:
+    ccfg = cfg_of(cs.node)
+    fam_of = {f'self.data.{f}varCovar': f for f in FAMILIES}
+
+    def matrices(e: ast.AST) -> set[str]:
+        """families whose variance-covariance matrix enters the VALUE of the expression (a matrix read only for its shape -
+        X.shape, len(X), np.full_like(X, c) - does not count)"""
+        shape_only = set()
+        for n in ast.walk(e):
+            if isinstance(n, ast.Attribute) and n.attr in ('shape', 'ndim', 'dtype', 'size'):
+                shape_only.add(id(n.value))
+            elif isinstance(n, ast.Call) and (dotted(n.func) or '').split('.')[-1] in ('full_like', 'zeros_like', 'ones_like', 'empty_like', 'len') and n.args:
+                shape_only.add(id(n.args[0]))
+        return {fam_of[dotted(n)] for n in ast.walk(e) if isinstance(n, ast.Attribute) and id(n) not in shape_only and dotted(n) in fam_of}
+
+    def sources(e: ast.AST):
+        """(family, how) for every matrix that can enter the value of e (a node of _calculate_stats): read in e itself, or in a
+        definition that reaches one of its locals (reaching definitions on the CFG, followed through locals)"""
+        out = [(f_, None) for f_ in sorted(matrices(e))]
+        todo = [x for x in ast.walk(e) if isinstance(x, ast.Name) and isinstance(x.ctx, ast.Load)]
+        seen = set()
+        while todo and len(seen) < 40:
+            nm = todo.pop()
+            if id(nm) in seen:
+                continue
+            seen.add(id(nm))
+            at = ccfg.node_of(nm)
+            for d in (ccfg.reaching(at, nm.id) if at is not None else []):
+                if d.kind != 'assign' or d.value is None:
                     continue
-                seen.add((nm.id, id(nm)))
-                at = ccfg.node_of(nm)
-                for d in (ccfg.reaching(at, nm.id) if at is not None else []):
-                    if d.kind != 'assign' or d.value is None:
-                        continue
-                    foreign = sorted({m_ for m_ in re.findall(r'self\.data\.(\w*?)varCovar', unparse(d.value)) if m_ != fam})
-                    if foreign:
-                        stale = f'{nm.id}, which enters self.data.{fam}correlation, can still hold `{unparse(d.value)}` (line {getattr(d.value, "lineno", "?")}): the {FAMNAME[fam]} correlations are normalised with the standard deviations of another family'
-                        break
-                    if len(seen) < 40:
-                        todo += [x for x in ast.walk(d.value) if isinstance(x, ast.Name)]
+                out += [(f_, f'{nm.id} can still hold `{unparse(d.value)}` (line {getattr(d.value, "lineno", "?")})') for f_ in sorted(matrices(d.value))]
+                todo += [x for x in ast.walk(d.value) if isinstance(x, ast.Name) and isinstance(x.ctx, ast.Load)]
+        return out
+
+    COR = BLOCK[BLOCK.index('_D = np.diag'):]
+    parent = {id(c): p_ for p_ in ast.walk(cs.node) for c in ast.iter_child_nodes(p_)}
+
+    def resolved(e: ast.expr) -> str:
+        return unparse(matrix_index(inline_defs(cs.node, e)))
+
+    def std_errors_ok(fam: str, setters: list[ast.Call]) -> bool:
+        """the standard-error half of BLOCK decided per assignment: inside a loop `for I in range(self.data.nparam)` one test
+        `V[I, I] < 0` of the family's own matrix selects between set_FAMstd_err(max float) and set_FAMstd_err(sqrt(V[I, I])) on
+        betas[I]; V[I, I] may be read through single-definition locals and np.diag; what else the loop does is not looked at"""
+        if len(setters) != 2 or any(len(c.args) != 1 or c.keywords for c in setters):
+            return False
+        stmts = [parent.get(id(c)) for c in setters]
+        tests = [parent.get(id(st)) for st in stmts]
+        if not all(isinstance(st, ast.Expr) for st in stmts) or tests[0] is not tests[1] or not isinstance(tests[0], ast.If):
+            return False
+        t = tests[0]
+        if len(t.body) != 1 or len(t.orelse) != 1 or {id(t.body[0]), id(t.orelse[0])} != {id(st) for st in stmts}:
+            return False
+        loop = parent.get(id(t))
+        if not (isinstance(loop, ast.For) and t in loop.body and isinstance(loop.target, ast.Name) and unparse(loop.iter) == 'range(self.data.nparam)' and not loop.orelse):
+            return False
+        if any(isinstance(x, (ast.Break, ast.Continue, ast.Return)) for x in ast.walk(loop)):
+            return False
+        I = loop.target.id
+        vii = f'self.data.{fam}varCovar[{I}, {I}]'
+        # the matrix is assigned before anything reads it
+        born = min((a.lineno for a in assigns.get(f'self.data.{fam}varCovar', [])), default=None)
+        if born is None or any(isinstance(x, ast.Attribute) and isinstance(x.ctx, ast.Load) and dotted(x) == f'self.data.{fam}varCovar' and x.lineno < born for x in ast.walk(cs.node)):
+            return False
+        low, high = t.body[0].value, t.orelse[0].value
+        return resolved(t.test) == f'{vii} < 0' and all(unparse(c.func.value) == f'self.data.betas[{I}]' for c in setters) \
+            and resolved(low.args[0]) == 'np.finfo(float).max' and resolved(high.args[0]) == f'np.sqrt({vii})'
+
+    for fam in FAMILIES:
+        setters = [n for n in walk_no_nested(cs.node) if isinstance(n, ast.Call) and isinstance(n.func, ast.Attribute) and n.func.attr == f'set_{fam}std_err']
+        ok = has(cs.node, BLOCK.replace('FAM', fam)) or (std_errors_ok(fam, setters) and has(cs.node, COR.replace('FAM', fam)))
+        line = setters[0].lineno if setters else cs.line
+        # decided per assignment, whatever the loops look like: which matrix feeds the standard error handed to the setter of this
+        # family, which matrix feeds the correlation of this family.  A matrix of ANOTHER family there is the contradiction.
+        cors = [a for a in walk_no_nested(cs.node) if isinstance(a, ast.Assign) and unparse(a.targets[0]) == f'self.data.{fam}correlation']
+        fed = [(f'the standard error given to set_{fam}std_err', x) for c in setters for x in list(c.args) + [k.value for k in c.keywords]]
+        fed += [(f'self.data.{fam}correlation', a.value) for a in cors]
+        reads = set()
+        stale = None
+        for what, e in fed:
+            for f_, how in sources(e):
+                reads.add(f'{f_}varCovar')
+                if f_ != fam and stale is None:
+                    stale = (f'{what} is computed from self.data.{f_}varCovar' if how is None else f'{how}, which enters {what}') + \
+                        f': the {FAMNAME[fam]} ' + ('correlations are normalised with the standard deviations' if 'correlation' in what else 'standard errors are computed from the variances') + ' of another family'
+        own = {f'{fam}varCovar'}
         if stale:
             ok = False
-        elif not ok and reads == own:
-            ok = None  # the block reads its own matrix; only its spelling is not the one the rule knows
+        elif not ok:
+            ok = None  # every standard error and correlation of the family comes from its own matrix (or from values the rule cannot trace): only the spelling is not the one the rule knows
         ctx.add('C08.R2', f'_calculate_stats:{FAMNAME[fam]}', ok, (cs.file, line),
                 f'{FAMNAME[fam]} block: std err_i = sqrt(V_ii) and correlation = D^-1 V D^-1 of its own matrix' if ok
-                else ((stale or f'{FAMNAME[fam]} block is not the std-err / correlation block of its own matrix (matrices read: {sorted(reads)})') if ok is False
+                else (stale if ok is False
                       else f'shape not recognised - expected: std err_i = sqrt(V_ii) (max float when negative) for every parameter, correlation = D^-1 V D^-1, all from {sorted(own)[0]}'),
                 detail='' if ok else str(sorted(reads)), positive=ok is False)
     B = prog.cls('results', 'Beta')
@@ -435,22 +515,53 @@ return biogeme.tools.likelihood_ratio.likelihood_ratio_test((_LU, _KU), (_LR, _K
     ctx.add('C08.R3', 'get_f12', okf, f12, 'robust flag selects the robust std err and entry 5 (robust correlation), otherwise std err and entry 1 (correlation)' if okf else f'F12 columns changed (indices {idx})', str(idx))
     ce = prog.func('results', 'compile_estimation_results')
     rows_ = {
-        'estimate row': ("_DF.loc[_B.name, _C] = _B.value", '.value'),
-        '(std) row': ("_DF.loc[f'{_B.name} (std)', _C] = _B.robust_stdErr", '.robust_stdErr'),
-        '(ttest) row': ("_DF.loc[f'{_B.name} (ttest)', _C] = _B.robust_tTest", '.robust_tTest'),
+        'estimate row': ("_DF.loc[_B.name, _C] = _B.value", '.value', ''),
+        '(std) row': ("_DF.loc[f'{_B.name} (std)', _C] = _B.robust_stdErr", '.robust_stdErr', '(std)'),
+        '(ttest) row': ("_DF.loc[f'{_B.name} (ttest)', _C] = _B.robust_tTest", '.robust_tTest', '(ttest)'),
     }
-    for what, (pat, attr) in rows_.items():
+
+    def text_parts(e: ast.expr) -> tuple[str, list[ast.expr]]:
+        """(the literal text, the embedded values) of a text assembled from literals and values: f-string, 'lit %s' % x,
+        'lit {}'.format(x), a + b; any other expression is one embedded value"""
+        if isinstance(e, ast.Constant) and isinstance(e.value, str):
+            return e.value, []
+        if isinstance(e, ast.JoinedStr):
+            txt, vals = '', []
+            for v in e.values:
+                if isinstance(v, ast.FormattedValue):
+                    vals.append(v.value)
+                else:
+                    t_, v_ = text_parts(v)
+                    txt, vals = txt + t_, vals + v_
+            return txt, vals
+        if isinstance(e, ast.BinOp) and isinstance(e.op, ast.Mod) and isinstance(e.left, ast.Constant) and isinstance(e.left.value, str):
+            return re.sub(r'%[-0-9.]*[sdrfg]', '', e.left.value), list(e.right.elts) if isinstance(e.right, ast.Tuple) else [e.right]
+        if isinstance(e, ast.BinOp) and isinstance(e.op, ast.Add):
+            (t1, v1), (t2, v2) = text_parts(e.left), text_parts(e.right)
+            return t1 + t2, v1 + v2
+        if isinstance(e, ast.Call) and isinstance(e.func, ast.Attribute) and e.func.attr == 'format' and isinstance(e.func.value, ast.Constant) and isinstance(e.func.value.value, str):
+            return re.sub(r'\{[^{}]*\}', '', e.func.value.value), list(e.args) + [k.value for k in e.keywords]
+        return '', [e]
+
+    # every cell written into the compiled table, read as (parameter variable, literal suffix of its row label, value): the row
+    # label is the name of a parameter, alone or followed by a literal suffix, however the text is put together
+    cells = []
+    for n in ast.walk(ce.node):
+        if isinstance(n, ast.Assign) and len(n.targets) == 1 and isinstance(n.targets[0], ast.Subscript) and isinstance(n.targets[0].value, ast.Attribute) \
+                and n.targets[0].value.attr in ('loc', 'at') and isinstance(n.targets[0].slice, ast.Tuple) and len(n.targets[0].slice.elts) == 2:
+            txt, vals = text_parts(inline_defs(ce.node, n.targets[0].slice.elts[0]))
+            if len(vals) == 1 and isinstance(vals[0], ast.Attribute) and vals[0].attr == 'name' and isinstance(vals[0].value, ast.Name):
+                cells.append((vals[0].value.id, txt.strip(), inline_defs(ce.node, n.value)))
+    for what, (pat, attr, suffix) in rows_.items():
         ok = has(ce.node, pat)
-        lhs = pat.split(' = ')[0]
-        got = None
-        for n in ast.walk(ce.node):
-            if isinstance(n, ast.Assign) and isinstance(n.targets[0], ast.Subscript):
-                tkey = unparse(n.targets[0].slice)
-                if (what == 'estimate row' and re.fullmatch(r'\(\w+\.name, \w+\)', tkey)) or (what != 'estimate row' and what.split()[0] in tkey):
-                    got = unparse(n.value)
-        other = not ok and got is not None and re.fullmatch(r'\w+\.\w+', got) is not None
-        ctx.add('C08.R3', f'compile_estimation_results:{what}', ok if (ok or other) else None, ce, f'{what} holds {attr[1:]}' if ok else (f'{what} holds {got} (robust statistics are announced)' if other else f'{what} of the compiled table is not in the expected form'),
-                re.sub(r'^\w+\.', 'b.', got or ''), positive=other)
+        # the attribute of the parameter of the row stored in the cells of this kind of row (None: something else than an attribute of that parameter)
+        held = [(v.attr if isinstance(v, ast.Attribute) and isinstance(v.value, ast.Name) and v.value.id == bvar else None, unparse(v)) for bvar, sfx, v in cells if sfx == suffix]
+        # positive: the cell holds an attribute of the parameter of its row, and it is not the attribute the row announces
+        wrong = [txt_ for a, txt_ in held if a is not None and a != attr[1:]]
+        ok = (ok or (bool(held) and all(a == attr[1:] for a, _ in held))) and not wrong
+        other = bool(wrong)
+        ctx.add('C08.R3', f'compile_estimation_results:{what}', ok if (ok or other) else None, ce, f'{what} holds {attr[1:]}' if ok else (f'{what} holds {wrong[0]}, not {attr[1:]} (robust statistics are announced)' if other else f'{what} of the compiled table is not in the expected form'),
+                re.sub(r'^\w+\.', 'b.', (wrong[0] if wrong else (held[0][1] if held else ''))), positive=other)
     _PS = "_S = (f'({_B.robust_stdErr:.3g})' if include_robust_stderr else '') if _B.robust_stdErr is not None else __Q1\n"
     _PT = "_T = (f'({_B.robust_tTest:.3g})' if include_robust_ttest else '') if _B.robust_tTest is not None else __Q2\n"
     _PV = "_V = f'{_B.value:.3g} {_S} {_T}'"
